@@ -87,7 +87,24 @@ CLAIM = {
             'parent profile, scaled / concatenated responses, deep copies and pickles, continuing on a deep copy) - '
             'op `fork` (identity in the model), oracle derived-objects; deep copies of multiuser channels with Jakes '
             'links fail in fading_generators.py (known finding); R14 (257-tap profile, 257-link multiuser channel, '
-            'fft_size 300 every quick run; 258 / 300 / 65537 taps in thorough) - all theorems are size-free.',
+            'fft_size 300 every quick run; 258 / 300 / 65537 taps in thorough) - all theorems are size-free. '
+            'Third list (harness/props/c03_r1516.py): R15 (values that are close but different: path losses 1e-9 .. 5e-324 one after '
+            'the other, path losses / sampling intervals differing by a relative 1e-6 .. 1e-9, adjacent binary64 values, values a '
+            'hair outside [0, 1], tap powers down to -150 dB next to 0 dB, delays closer than 1e-8 s in different samples) - theorems '
+            'pathloss_setter_takes_effect_for_every_new_value, pathloss_is_the_exact_value, pathloss_close_values_distinguished, '
+            'mu_pathloss_entry_exact, discretize_keeps_every_tap, constructor_sampling_intervals_agree_exactly (model ctorTs of the '
+            'comparisons in TdlChannel.__init__, tied by an exact correspondence on binary64 intervals); exact correspondence of '
+            'histories with close path losses / tiny tap amplitudes and of dyadic close-value profiles; oracles against a twin object '
+            'without path loss resp. with equal tap powers, every comparison relative to the value itself. Refusal of DIFFERENT '
+            'sampling intervals is demanded only for relative differences >= 1e-7 (adjacent doubles are not generated as a pair). '
+            'R16 (argument identity and buffer reuse: ONE signal array / list of arrays, ONE carrier index array / list, ONE path-loss '
+            'matrix, ONE pair of tap arrays refilled in place between the calls of a history; arguments overwritten right after the '
+            'call; one array as signal and carrier_indexes, as the signal of every transmitter, as tap_powers_dB and tap_delays; one '
+            'response twice in concatenate_samples) - theorems earlier_results_independent_of_later_calls, '
+            'refilled_buffer_history_eq_fresh_values (the model takes values; the caller-side buffer is spelled out in Su.runBuf); the '
+            'real objects are driven with really refilled / overwritten / shared ndarrays in correspondence and oracle, plus a twin '
+            'object that gets a fresh array for every argument. concatenate_samples insists on the SAME profile object (documented), '
+            'so equal-content profiles are not interchangeable there - outside the property.',
 }
 
 SEEDMOD = 1 << 20
@@ -355,11 +372,13 @@ def profile_arrays(case, powers_dB):
     return p, d
 
 
-def build_profile(case):
+def build_profile(case, held=None):
     """discretised profile with exact (perfect-square) linear powers"""
     from pyphysim.channels import fading
     Ts = case['Ts']
     p0, d0 = profile_arrays(case, np.zeros(len(case['delays'])))
+    if held is not None:
+        held += [p0, d0]
     keep = (p0.copy(), d0.copy())
     prof = fading.TdlChannelProfile(p0, d0).get_discretize_profile(Ts)
     assert np.array_equal(p0, keep[0]) and np.array_equal(d0, keep[1]), 'profile arrays modified'
@@ -381,6 +400,18 @@ def np_int(v, t):
 
 
 def build_channel(case):
+    """R16 (`prof_scribble`): the caller overwrites the tap arrays it built the profile / channel from as soon
+    as the constructor has returned - the object must live on the values it was given"""
+    held = []
+    ch = _build_channel(case, held)
+    if case.get('prof_scribble'):
+        for a in held:
+            if not scribble(a):
+                raise AssertionError('the constructor made the caller\'s tap array read-only')
+    return ch
+
+
+def _build_channel(case, held):
     """the real object of a scenario.  `real` scenarios use the untouched generators and a dB profile,
     the others scripted fading and perfect-square powers.  R8: the constructor arguments are given
     positionally or by keyword, as a discretised profile object / a profile object plus Ts / tap arrays
@@ -394,6 +425,7 @@ def build_channel(case):
     if real:
         np.random.seed(case['npseed'])
         p0, d0 = profile_arrays(case, case['powers_dB'])
+        held += [p0, d0]
         prof = fading.TdlChannelProfile(p0, d0)
         if form == 'profile' and case.get('prediscretized', True):
             prof = prof.get_discretize_profile(Ts)
@@ -406,10 +438,11 @@ def build_channel(case):
     else:
         ScriptedRayleigh, ScriptedJakes = _generators()
         if form == 'profile':
-            prof = build_profile(case)
+            prof = build_profile(case, held)
         else:
             assert case['amps'] == ['1'] and len(case['delays']) == 1, 'exact only for one 0 dB tap'
             p0, d0 = profile_arrays(case, np.zeros(1))
+            held += [p0, d0]
             prof = fading.TdlChannelProfile(p0, d0)
         script = Script(case['seed'], first_link=-1 if case['level'] == 'mu' else case['link'])
 
@@ -544,16 +577,79 @@ def make_fft(op):
     return getattr(np, t)(op['fft']) if t else op['fft']
 
 
+R16KEYS = ('buf', 'idxbuf', 'scribble', 'alias')
+
+
+def same_kind(o, n):
+    return (isinstance(o, np.ndarray) and isinstance(n, np.ndarray) and o.shape == n.shape and o.dtype == n.dtype
+            and o.strides == n.strides and o.flags['WRITEABLE'])
+
+
+def scribble(a):
+    """R16: what a caller may do with ITS array once the call has returned (other, still plausible values);
+    False when the call has frozen the caller's array"""
+    if isinstance(a, (list, tuple)):
+        if isinstance(a, list) and a and all(isinstance(v, int) for v in a):
+            a[:] = [0 if any(a) else 1] * len(a)
+            return True
+        return all([scribble(v) for v in a])
+    if not isinstance(a, np.ndarray) or not a.size:
+        return True
+    if not a.flags['WRITEABLE']:
+        return False
+    if np.issubdtype(a.dtype, np.integer):
+        a[...] = 0 if a.any() else 1
+    else:
+        a[...] = 0.375 if float(np.max(np.abs(a))) <= 1.0 else 7.25e7
+    return True
+
+
 class Rec:
-    """R3 bookkeeping: snapshots of every array passed in, and of every array handed back"""
+    """R3 bookkeeping: snapshots of every array passed in, and of every array handed back.
+    R16 bookkeeping: the caller's long-lived argument buffers (`bufs`), refilled in place between calls."""
 
     def __init__(self):
         self.inputs, self.outputs = [], []
+        self.bufs, self.early, self.refills = {}, [], 0
 
     def passing(self, what, a):
         if isinstance(a, np.ndarray):
             self.inputs.append((what, a, a.copy(), a.dtype, a.strides))
         return a
+
+    def reuse(self, key, a):
+        """R16: the caller keeps ONE object per argument and refills it in place (`buf[...] = new`) before
+        each call; a new one is allocated only when shape / element type / layout change"""
+        old = self.bufs.get(key)
+        if isinstance(a, list):
+            if isinstance(old, list) and len(old) == len(a):
+                if all(isinstance(v, int) for v in a) and all(isinstance(v, int) for v in old):
+                    old[:] = a
+                    self.refills += 1
+                    return old
+                if all(same_kind(o, n) for o, n in zip(old, a)):
+                    for o, n in zip(old, a):
+                        o[...] = n
+                    self.refills += 1
+                    return old
+            self.bufs[key] = a
+            return a
+        if same_kind(old, a):
+            old[...] = a
+            self.refills += 1
+            return old
+        self.bufs[key] = a
+        return a
+
+    def settle(self, volatile):
+        """after a call: arguments the caller is going to overwrite are compared with their snapshots NOW
+        (the others stay pending until the end of the history)"""
+        if not volatile:
+            return
+        pending, self.inputs = self.inputs, []
+        for what, a, snap, dt, st in pending:
+            if a.dtype != dt or a.shape != snap.shape or not np.array_equal(a, snap):
+                self.early.append('input-modified:' + what)
 
     def returned(self, what, a, against=()):
         for arr in (a if isinstance(a, (list, tuple)) or (isinstance(a, np.ndarray) and a.dtype == object) else [a]):
@@ -565,7 +661,7 @@ class Rec:
         return None
 
     def violations(self):
-        out = []
+        out = list(self.early)
         for what, a, snap, dt, st in self.inputs:
             if a.dtype != dt or a.shape != snap.shape or not np.array_equal(a, snap):
                 out.append('input-modified:' + what)
@@ -641,7 +737,21 @@ def run_queries(ch, case, op):
 
 def apply_op(ch, case, op, rec, patched):
     """one operation on the real object; returns ('y', array) | ('ir', [responses]) | ('ok',) |
-    ('fork', new object).  R8: `kw` gives the arguments by keyword, `omit` leaves defaulted ones out."""
+    ('fork', new object).  R8: `kw` gives the arguments by keyword, `omit` leaves defaulted ones out.
+    R16: `buf` / `idxbuf` hand over the caller's long-lived buffer refilled in place, `alias` one object in
+    two roles, `scribble` overwrites the caller's arrays as soon as the call has returned."""
+    held = []           # the caller's array / list objects this call hands to the library
+    try:
+        return _apply_op(ch, case, op, rec, patched, held)
+    finally:
+        rec.settle(any(op.get(f) for f in R16KEYS))
+        if op.get('scribble'):
+            for what, a in held:
+                if not scribble(a):
+                    rec.early.append('input-modified:%s:made-read-only' % what)
+
+
+def _apply_op(ch, case, op, rec, patched, held):
     k = op['op']
     mu = case['level'] == 'mu'
     kw = bool(op.get('kw'))
@@ -670,7 +780,12 @@ def apply_op(ch, case, op, rec, patched):
         return ('ok',)
     if k in ('pl', 'plbad'):
         if mu:
-            v = None if (op.get('s') is None and op.get('p') is None) else rec.passing('pathloss-matrix', make_plmatrix(op))
+            v = None
+            if not (op.get('s') is None and op.get('p') is None):
+                v = make_plmatrix(op)
+                if op.get('buf'):
+                    v = rec.reuse('pl', v)
+                held.append(('pathloss-matrix', rec.passing('pathloss-matrix', v)))
             if kw:
                 ch.set_pathloss(pathloss_matrix=v)
             else:
@@ -702,6 +817,11 @@ def apply_op(ch, case, op, rec, patched):
             ch.generate_impulse_response(n)
         return ('ok',)
     sig = make_signal(case, op)
+    if op.get('alias') == 'sources-share-array' and mu and len(sig) and (isinstance(sig, list) or sig.ndim >= 2):
+        sig = [sig[0] for _ in range(len(sig))]           # ONE array object as the signal of every source
+    if op.get('buf'):
+        sig = rec.reuse('sig', sig)
+    held.append(('signal', sig))
     if isinstance(sig, list):
         for a in sig:
             rec.passing('signal', a)
@@ -712,6 +832,11 @@ def apply_op(ch, case, op, rec, patched):
         against = tuple(sig) if isinstance(sig, list) else (sig,)
     else:
         idx = sel2py(op['sel'])
+        if op.get('alias') == 'signal-is-index-array':
+            idx = sig                                       # ONE integer array: the symbols and the carriers
+        elif op.get('idxbuf') and isinstance(idx, (np.ndarray, list)):
+            idx = rec.reuse('idx', idx)
+        held.append(('carrier-indexes', idx))
         rec.passing('carrier-indexes', idx)
         fft = make_fft(op)
 
@@ -1024,6 +1149,8 @@ def real_twin_of(rng, case):
     c['powers_dB'] = [off - rng.randint(0, 30) / 2.0 for _ in case['delays']]
     if rng.chance(0.15):
         c['powers_dB'][rng.below(len(c['powers_dB']))] = off    # R5: 0 dB relative tap
+    if any(Fraction(a) ** 2 < Fraction(1, 10 ** 8) for a in case['amps']) and len(case['amps']) >= 2:
+        c['powers_dB'] = [off + 20.0 * math.log10(float(Fraction(a))) for a in case['amps']]   # R15: down to -150 dB
     c['prediscretized'] = rng.chance(0.5)
     c['ctor'] = rng.choice(['profile', 'profile+Ts', 'arrays'])     # any form: the reported response is the reference
     return c
@@ -1107,7 +1234,42 @@ def op_tags(case, op):
         t.append('R13:derived-responses')
     if k == 'fork':
         t.append('R13:deepcopy-continued')
+    if k == 'pl' and op.get('close'):
+        t.append('R15:pathloss-close-to-previous')
+    if op.get('buf'):
+        t.append('R16:pathloss-matrix-from-reused-buffer' if k == 'pl' else 'R16:signal-from-reused-buffer')
+    if op.get('idxbuf') and k == 'fx' and op['sel']['kind'] == 'idx' and not op.get('alias'):
+        t.append('R16:index-array-from-reused-buffer')
+    if op.get('scribble'):
+        t.append('R16:argument-overwritten-after-call')
+    if op.get('alias'):
+        t.append('R16:' + op['alias'])
     return t
+
+
+def count_refills(case):
+    """R16: how often a history really hands over an argument object it has handed over before, with new
+    contents (dry run of the caller's side only)"""
+    rec = Rec()
+    mu = case['level'] == 'mu'
+    for op in case['ops']:
+        k = op['op']
+        try:
+            if k == 'pl' and mu and op.get('buf') and not (op.get('s') is None and op.get('p') is None):
+                rec.reuse('pl', make_plmatrix(op))
+            if k in ('tx', 'fx'):
+                sig = make_signal(case, op)
+                if op.get('alias') == 'sources-share-array' and mu and len(sig) and (isinstance(sig, list) or sig.ndim >= 2):
+                    sig = [sig[0] for _ in range(len(sig))]
+                if op.get('buf'):
+                    rec.reuse('sig', sig)
+                if k == 'fx' and op.get('idxbuf') and not op.get('alias'):
+                    idx = sel2py(op['sel'])
+                    if isinstance(idx, (np.ndarray, list)):
+                        rec.reuse('idx', idx)
+        except Exception:       # noqa  (a malformed signal of a rejected call)
+            continue
+    return rec.refills
 
 
 def case_features(case):
@@ -1166,6 +1328,12 @@ def case_features(case):
     if ntx >= 2:
         f.add('history>=2')
     f.add('R3:snapshots-compared')
+    if any(Fraction(a) ** 2 < Fraction(1, 10 ** 8) for a in case['amps']) and len(case['amps']) >= 2:
+        f.add('R15:tap-power-below-1e-8')
+    if case.get('prof_scribble'):
+        f.add('R16:tap-arrays-overwritten-after-construction')
+    if any(op.get('buf') or op.get('idxbuf') for op in case['ops']) and count_refills(case):
+        f.add('R16:buffer-refilled-in-place')
     return f
 
 
@@ -1177,6 +1345,12 @@ def correspondence(ctx, n_su, n_mu, quick):
     for i in range(n_mu):
         cases.append(gen_case(ctx.rng, 'mu', quick))
     cases += corpus_cases()
+    # R15 / R16: close-but-distinct values; argument buffers refilled in place, overwritten, in two roles
+    from harness.props import c03_r1516 as rx
+    cases += rx.fixed_cases()
+    for i in range((n_su + n_mu) // 8):
+        level = ('tdl', 'su', 'mu', 'su', 'mu')[i % 5]
+        cases.append(rx.gen_close_case(ctx.rng, level, quick) if i % 2 else rx.gen_reuse_case(ctx.rng, level, quick))
     replies = drv.ask([case_line(c) for c in cases])
     disagreeing = []
     for c, rep in zip(cases, replies):
@@ -1771,9 +1945,12 @@ def o_history(case):
     if prof_state != (np.asarray(prof.tap_delays).tobytes(), np.asarray(prof.tap_powers_linear).tobytes(), prof.Ts):
         return 'R7:shared-profile-modified', 'the channel profile object changed during the history'
     passive = any(op['op'] in ('query', 'fork') for op in case['ops'])
-    if any_rejected or passive:
-        # the twin never sees the calls that were rejected, nor the read-only calls, and is never copied
+    reused = any(op.get(f) for op in case['ops'] for f in R16KEYS) or bool(case.get('prof_scribble'))
+    if any_rejected or passive or reused:
+        # the twin never sees the calls that were rejected, nor the read-only calls, and is never copied;
+        # R16: it gets a fresh array for every argument of every call, and nothing is overwritten afterwards
         twin_case = dict(case, ops=[dict(op) for op in case['ops']])
+        twin_case.pop('prof_scribble', None)
         ch2 = any_channel(twin_case)
         rec2 = Rec()
         got = []
@@ -1781,7 +1958,7 @@ def o_history(case):
             if op.get('expect', 'ok') == 'reject' or op['op'] in ('query', 'fork'):
                 continue
             try:
-                res = apply_op(ch2, case, op, rec2, False)
+                res = apply_op(ch2, case, {f: v for f, v in op.items() if f not in R16KEYS}, rec2, False)
             except Exception:
                 continue
             if res[0] == 'fork':
@@ -1792,9 +1969,11 @@ def o_history(case):
             if oi != oj or len(ya) != len(yb) or any(a.shape != b.shape or not np.array_equal(a, b)
                                                       for a, b in zip(ya, yb)):
                 return (('R4:history-differs-from-object-without-rejected-calls' if any_rejected else
-                         'R11:history-differs-from-object-without-queries-and-copies'),
+                         ('R11:history-differs-from-object-without-queries-and-copies' if passive else
+                          'R16:history-differs-from-object-given-fresh-arrays')),
                         'transmission at op %d differs from the same transmission on a fresh object that '
-                        'never saw the rejected / read-only calls and was never copied' % oi)
+                        'never saw the rejected / read-only calls, was never copied and got a fresh array for '
+                        'every argument' % oi)
     return None
 
 
@@ -2019,7 +2198,16 @@ def o_derived(case):
     return None
 
 
+def _rx_oracle(name):
+    def f(case):
+        from harness.props import c03_r1516 as rx
+        return rx.ORACLES[name](case)
+    return f
+
+
 ORACLES = {
+    'close-values': _rx_oracle('close-values'),            # R15
+    'argument-identity': _rx_oracle('argument-identity'),  # R16
     'derived-objects': o_derived,
     'transmit': o_history,
     'linearity': o_linear,
@@ -2233,7 +2421,8 @@ def oracles(ctx, n_tx, n_lin, n_disc):
         ctx.branch('oracle:R5:pl0' if case['level'] == 'su' else 'oracle:R5:pl-matrix-zero')
     # the boundary / rejected-call / long-lived-object corpus of the correspondence, on the untouched generators
     wr = core.Rng(51, 'c03corpus-real')
-    for c in corpus_cases():
+    from harness.props import c03_r1516 as rx
+    for c in corpus_cases() + rx.fixed_cases():
         rc = real_twin_of(wr, c)
         run_oracle(ctx, 'transmit', rc)
         for ft in case_features(rc):
@@ -2249,7 +2438,10 @@ def oracles(ctx, n_tx, n_lin, n_disc):
             run_oracle(ctx, 'transmit', gen_oracle_case(ctx.rng, level))
         else:
             # the full robustness history generator (R1-R7) on the untouched generators / FFT / dB profile
-            rc = real_twin_of(ctx.rng, gen_case(ctx.rng, level, True))
+            kind = (i // 2) % 4
+            rc = real_twin_of(ctx.rng, gen_case(ctx.rng, level, True) if kind < 2 else
+                              (rx.gen_reuse_case(ctx.rng, level, True) if kind == 2 else
+                               rx.gen_close_case(ctx.rng, level, True)))
             run_oracle(ctx, 'transmit', rc, key=case_line(rc) + str(rc['npseed']))
             for ft in case_features(rc):
                 if ft.startswith('R'):
@@ -2335,6 +2527,18 @@ RTAGS = ['R1:signal-dtype', 'R1:fft-type', 'R1:idx-dtype', 'R1:pl-type', 'R1:pl-
          'R13:deepcopy-continued', 'R14:count>=257']
 REQUIRED += ['corr:' + t for t in RTAGS] + ['oracle:' + t for t in RTAGS]
 REQUIRED += ['oracle:R13:derived-objects', 'oracle:R12:tap-order', 'corr:R12:tap-order', 'oracle:R14:profile-taps>=257']
+# R15 (distinct values that are merely close) / R16 (argument identity and buffer reuse): harness/props/c03_r1516.py
+R1516_TAGS = ['R15:pathloss-close-to-previous', 'R15:tap-power-below-1e-8',
+              'R16:signal-from-reused-buffer', 'R16:index-array-from-reused-buffer',
+              'R16:pathloss-matrix-from-reused-buffer', 'R16:argument-overwritten-after-call',
+              'R16:signal-is-index-array', 'R16:sources-share-array', 'R16:buffer-refilled-in-place',
+              'R16:tap-arrays-overwritten-after-construction']
+REQUIRED += ['corr:' + t for t in R1516_TAGS] + ['oracle:' + t for t in R1516_TAGS]
+REQUIRED += ['oracle:R15:pathloss-tiny', 'oracle:R15:pathloss-near1', 'oracle:R15:pathloss-pairs',
+             'oracle:R15:tap-powers', 'oracle:R15:discretize-close-Ts', 'oracle:R15:ctor-Ts',
+             'oracle:R16:profile-args', 'oracle:R16:concatenate',
+             'corr:R15:ctor-Ts:close-but-different', 'corr:R15:ctor-Ts:equal', 'corr:R15:discretize:delays-within-1e-8',
+             'corr:R15:discretize:delays-differ-by-1e-6-relative', 'corr:R15:discretize:powers-span>=1e8']
 
 
 def check(ctx):
@@ -2347,7 +2551,9 @@ def check(ctx):
                 'goes on) with inputs in many element types, memory layouts, shapes and scales (2^-40..2^40), each '
                 'transmission followed by a read of the reported response; all values compared exactly as rationals '
                 'with the Lean model. non-trivial = distinct scenario line with >= 2 taps or MIMO; oracle cases run '
-                'the same histories on the untouched generators / FFT / dB profiles against first-principles formulas')
+                'the same histories on the untouched generators / FFT / dB profiles against first-principles formulas; '
+                'R15 / R16 scenarios: close-but-different path losses / sampling intervals / tap powers, caller-side argument '
+                'buffers refilled in place, overwritten after the call, one array in two roles')
     core.prove(ctx, MODULE, generated=['Slice'], drivers=[DRIVER], scratch=ctx.scratch)
     ctx.required_branches = list(REQUIRED)
     np.random.seed(ctx.rng.below(1 << 31))
@@ -2357,6 +2563,9 @@ def check(ctx):
         try:
             correspondence(ctx, 900 if quick else 9000, 300 if quick else 3000, quick)
             discretize_corr(ctx, 600 if quick else 8000)
+            from harness.props import c03_r1516 as rx
+            rx.disc_close_corr(ctx, 150 if quick else 3000)
+            rx.ctor_corr(ctx, 150 if quick else 3000)
             slice_corr(ctx, 16, exhaustive=not quick)
             fft_contract(ctx, 100 if quick else 2000)
             if not quick:
@@ -2367,6 +2576,8 @@ def check(ctx):
             ctx.notes.append('correspondence skipped: %s' % e)
             ctx.required_branches = [b for b in REQUIRED if b.startswith('oracle:')]
         oracles(ctx, 300 if quick else 4000, 90 if quick else 1200, 200 if quick else 3000)
+        from harness.props import c03_r1516 as rx
+        rx.oracles(ctx, 30 if quick else 600)
 
 
 def search(ctx):
